@@ -54,6 +54,11 @@ struct btcp_socket
 
 	    int badness_reason;
 
+	    /* conn_state_closed entered by a send() failing with
+	       EPIPE: data the peer sent before it closed may still be
+	       queued, and is delivered before EOF is reported */
+	    bool drain_pending;
+
 	    int bell_reg_id;
 
 	    /* for conn_state_resolving */
@@ -646,9 +651,10 @@ static int btcp_send(struct xcm_socket *__restrict s,
 	    LOG_LOWER_DELIVERED_PART(s, rc);
 	    XCM_TP_CNT_BYTES_INC(bts->conn.cnts, to_lower, rc);
 	} else if (rc < 0) {
-	    if (errno == EPIPE)
-		BTCP_SET_STATE(s, conn_state_closed); 
-	    else if (errno != EAGAIN) {
+	    if (errno == EPIPE) {
+		BTCP_SET_STATE(s, conn_state_closed);
+		bts->conn.drain_pending = true;
+	    } else if (errno != EAGAIN) {
 		BTCP_SET_STATE(s, conn_state_bad);
 		bts->conn.badness_reason = errno;
 	    }
@@ -682,7 +688,9 @@ static int btcp_receive(struct xcm_socket *__restrict s, void *__restrict buf,
 	errno = bts->conn.badness_reason;
 	return -1;
     case conn_state_closed:
-	return 0;
+	if (!bts->conn.drain_pending)
+	    return 0;
+	break;
     case conn_state_resolving:
     case conn_state_connecting:
 	errno = EAGAIN;
@@ -695,6 +703,14 @@ static int btcp_receive(struct xcm_socket *__restrict s, void *__restrict buf,
     }
 
     int rc = recv(bts->fd, buf, capacity, 0);
+
+    if (bts->conn.drain_pending && (rc == 0 || (rc < 0 && errno != EAGAIN))) {
+	/* nothing more to be had from a connection already known to
+	   be closed */
+	bts->conn.drain_pending = false;
+	LOG_RCV_EOF(s);
+	return 0;
+    }
 
     if (rc < 0) {
 	LOG_RCV_FAILED(s, errno);
